@@ -37,6 +37,40 @@ func c15MultiRecords(r *Run, pool []gts.Sequence) {
 		}
 		return b.Bytes()
 	}
+	// crafted: circular records whose located regions all share ONE cut position (gene and CDS starting
+	// at the same base), in front of further records (seeded change W26-2)
+	{
+		res := []byte("acgtacgtacgtacgtacgtacgtacgtacgtacgtacgt")
+		mk := func(a, b int) gts.Sequence {
+			ff := gts.FeatureSlice{}
+			ff = ff.Insert(gts.Feature{Key: "gene", Loc: gts.Range(a, b), Props: gts.Props{{"gene", "x"}}})
+			ff = ff.Insert(gts.Feature{Key: "CDS", Loc: gts.Range(a, b-3), Props: gts.Props{{"gene", "x"}}})
+			return c15Faithful(gts.New(nil, ff, res), true)
+		}
+		s1, s2 := mk(4, 20), mk(10, 30)
+		if s1 != nil && s2 != nil {
+			catc := func(ss ...gts.Sequence) []byte {
+				var bb bytes.Buffer
+				for _, x := range ss {
+					bb.Write(c15File(x, true))
+				}
+				return bb.Bytes()
+			}
+			for _, cs := range [][]string{{"split", "/gene=x"}, {"split", "gene"}, {"rotate", "/gene=x"}, {"extract", "/gene=x"}, {"delete", "/gene=x"}} {
+				line := fmt.Sprintf("cli.%s.stream-circular-shared-head %s %s", strings.Join(cs, "."), encSeq(s1), encSeq(s2))
+				crumb(line)
+				all, ok := run(cs, catc(s1, s2, s1), nil)
+				a, oka := run(cs, catc(s1), nil)
+				b, okb := run(cs, catc(s2), nil)
+				r.count("multi/stream-circular-shared-head/" + cs[0])
+				r.eval(line, true)
+				if ok && oka && okb && all != a+b+a {
+					r.fail(Failure{Oracle: "gts " + strings.Join(cs, " ") + " on a stream of circular records whose located regions share one head writes what it writes for each record alone", Op: line,
+						Got: fmt.Sprintf("%d bytes", len(all)), Want: fmt.Sprintf("%d bytes", len(a+b+a))})
+				}
+			}
+		}
+	}
 	for t := 0; t < n; t++ {
 		h1, h2 := pool[r.rng.intn(len(pool))], pool[r.rng.intn(len(pool))]
 		g1, g2 := c15Faithful(c15Guest(r.rng), false), c15Faithful(c15Guest(r.rng), false)
@@ -123,6 +157,26 @@ func c15MultiRecords(r *Run, pool []gts.Sequence) {
 			a, oka := run(cs, cat(h1), nil)
 			b, okb := run(cs, cat(h2), nil)
 			r.count("multi/stream/" + cs[0])
+			// the same stream with CIRCULAR records (split / rotate / extract take other branches there:
+			// seeded change W26-2, a `break` that left the scan loop behind a circular record whose
+			// regions share one cut position, dropping every later record)
+			if cs[0] == "split" || cs[0] == "rotate" || cs[0] == "extract" {
+				catc := func(ss ...gts.Sequence) []byte {
+					var bb bytes.Buffer
+					for _, x := range ss {
+						bb.Write(c15File(x, true))
+					}
+					return bb.Bytes()
+				}
+				cboth, cok := run(cs, catc(h1, h2, h1), nil)
+				ca, coka := run(cs, catc(h1), nil)
+				cb, cokb := run(cs, catc(h2), nil)
+				r.count("multi/stream-circular/" + cs[0])
+				if cok && coka && cokb && cboth != ca+cb+ca {
+					r.fail(Failure{Oracle: "gts " + strings.Join(cs, " ") + " on a stream of three CIRCULAR records writes what it writes for each record alone", Op: line + " circular",
+						Got: fmt.Sprintf("%d bytes", len(cboth)), Want: fmt.Sprintf("%d bytes", len(ca+cb+ca))})
+				}
+			}
 			r.eval(line, true)
 			if !ok || !oka || !okb {
 				continue
